@@ -234,19 +234,20 @@ def h (slot gen : Nat) : Key := ⟨.heap, slot, gen⟩
 
 /-- C12-K1 `fn dsp(){ let a = 2.0  let f = |x| { x*a }  a }` — first sample: `cA1.1 hA1.1 cU… cC1.1 … h-1.1 hF1.1` -/
 def witnessLetClosure : Trace :=
-  [⟨.alloc, c 1 1⟩, ⟨.alloc, h 1 1⟩, ⟨.use, c 1 1⟩, ⟨.use, c 1 1⟩, ⟨.close, c 1 1⟩, ⟨.use, c 1 1⟩, ⟨.use, c 1 1⟩,
+  [⟨.alloc, c 1 1⟩, ⟨.alloc, h 1 1⟩, ⟨.use, c 1 1⟩, ⟨.close, c 1 1⟩, ⟨.use, c 1 1⟩, ⟨.use, c 1 1⟩,
    ⟨.release, h 1 1⟩, ⟨.free, h 1 1⟩]
 
 /-- C12-K2 `fn hof(f:(float)->float,y){ f(y*2.0) }  fn g(y){y*3.0}  fn dsp(){ hof(g,4.0) }` — first sample:
-`cA1.1 hA1.1 h+1.1 c+1.1 cU cU cC1.1 cU cU cU h-1.1` -/
+`cA1.1 hA1.1 h+1.1 c+1.1 cU cC1.1 cU cU cU h-1.1` (one handle check before the close since UPV-2: closing
+no longer reads the closure's frame base) -/
 def witnessFnArg : Trace :=
-  [⟨.alloc, c 1 1⟩, ⟨.alloc, h 1 1⟩, ⟨.retain, h 1 1⟩, ⟨.retain, c 1 1⟩, ⟨.use, c 1 1⟩, ⟨.use, c 1 1⟩,
+  [⟨.alloc, c 1 1⟩, ⟨.alloc, h 1 1⟩, ⟨.retain, h 1 1⟩, ⟨.retain, c 1 1⟩, ⟨.use, c 1 1⟩,
    ⟨.close, c 1 1⟩, ⟨.use, c 1 1⟩, ⟨.use, c 1 1⟩, ⟨.use, c 1 1⟩, ⟨.release, h 1 1⟩]
 
 /-- C12-K3 `fn mk(a){ |x| { x+a } }  fn dsp(){ mk(2.0)(1.0) }` — first sample:
-`cA1.1 hA1.1 cU cU cC1.1 cU h+1.1 c+1.1 cU h-1.1 cU cU` -/
+`cA1.1 hA1.1 cU cC1.1 cU h+1.1 c+1.1 cU h-1.1 cU cU` -/
 def witnessFnRet : Trace :=
-  [⟨.alloc, c 1 1⟩, ⟨.alloc, h 1 1⟩, ⟨.use, c 1 1⟩, ⟨.use, c 1 1⟩, ⟨.close, c 1 1⟩, ⟨.use, c 1 1⟩, ⟨.retain, h 1 1⟩,
+  [⟨.alloc, c 1 1⟩, ⟨.alloc, h 1 1⟩, ⟨.use, c 1 1⟩, ⟨.close, c 1 1⟩, ⟨.use, c 1 1⟩, ⟨.retain, h 1 1⟩,
    ⟨.retain, c 1 1⟩, ⟨.use, c 1 1⟩, ⟨.release, h 1 1⟩, ⟨.use, c 1 1⟩, ⟨.use, c 1 1⟩]
 
 /-- C12-K4 `type rec List = Nil | Cons(float, List)` … `fn dsp(){ let l = Cons(1.0, Nil)  sum(l) }` — first sample:
